@@ -21,7 +21,18 @@
 //	O event i K=- race=<call>                  a call issued by ANOTHER goroutine while the poller is inside
 //	      ResetPollerEvent, between its look at the write list and its epoll_ctl (forced through the
 //	      shim's CtlHook); if the poller holds the conn mutex there, the call runs right after it
-//	O close
+//	O event o K=<k,…> park=<call>              the call is issued by another goroutine and parked inside
+//	      newToWriteBuf (allocator yield point: after its direct write, before the append to the write list, under
+//	      the conn mutex); the EPOLLOUT event is injected while it is parked, then the writer resumes. A flush
+//	      that looks at the write list without the mutex misses the backlog and spends the edge.
+//	O close [race=<call>]                      Close; the racing call is issued by "another goroutine" inside the
+//	                                           teardown (after the closed flag was set, before the fd is closed;
+//	                                           shim CloseHook): it must get the closed indication and must not
+//	                                           touch the descriptor (oracle c01-after-flip)
+//	O deadline far|0                           SetWriteDeadline one hour ahead / zero time (clear)
+//	O fire                                     the write deadline expires now (only if a timer is set on an
+//	                                           open conn: the deadline is moved to "now" and the timer's
+//	                                           closeWithError(errWriteTimeout) is awaited)
 //	Q                                          observation
 //
 // kernel answers k: w<n> (accept n bytes, capped at the request) | eagain | eintr | epipe; an
@@ -30,7 +41,7 @@
 // result lines:
 //
 //	R [ow=<n:err;…>|n=<n> err=<e>|deliv=<bits> cb=<n:err>] closed= left= wl=[b<unsent>/<len>,f<off>+<remain>,…]
-//	  wadded= reg= ctl=[<epoll_ctl calls since the previous line>] wire=<len>:<fnv> onclose=
+//	  wadded= reg= ctl=[<epoll_ctl calls since the previous line>] wire=<len>:<fnv> onclose= wtimer=
 //	hung        the event loop did not come back (flush spinning); the rest of the case is `dead`
 //
 // Direct oracles (implementation only):
@@ -41,6 +52,7 @@
 //	c04-quiescent-unarmed  open, registered, non-empty queue, EPOLLOUT not armed
 //	c04-progress           EPOLLOUT delivered with kernel room did not reduce the backlog
 //	c04-et-lost-edge       ET: flush gave up on a backlog without the kernel having refused a write
+//	c01-stale-wtimer       write deadline still set after Write/Writev/flush left nothing to be written
 //	c17-bound              left > maxWB; left != Σ unsent buffer bytes; drained but left != 0
 //	c17-fits               a call that fits (or no bound) was not accepted / overflow reported wrongly
 //	c17-overflow           a call that exceeds the bound did not fail with ErrOverflow + close
@@ -63,8 +75,23 @@ import (
 
 	"github.com/lesismal/nbio"
 	"github.com/lesismal/nbio/logging"
+	"github.com/lesismal/nbio/mempool"
 	"github.com/lesismal/nbio/vsys"
 )
+
+// parkAlloc is the engines' BodyAllocator: the default pool, with a yield point in Malloc. The write path
+// calls Malloc from newToWriteBuf, i.e. under the conn mutex, after the direct write was refused and before
+// the data is appended to the write list: a writer parked there is "between its EAGAIN and its append".
+type parkAlloc struct{ mempool.Allocator }
+
+var parkHook func()
+
+func (a parkAlloc) Malloc(size int) *[]byte {
+	if h := parkHook; h != nil {
+		h()
+	}
+	return a.Allocator.Malloc(size)
+}
 
 const filePat = 3
 const bigFile = 4<<20 + 4097
@@ -160,6 +187,7 @@ type simItem struct {
 	rem       int // file
 }
 type sim struct {
+	wtimer bool
 	closed bool
 	items  []simItem
 	left   int
@@ -177,6 +205,11 @@ func (s *sim) enqueue(n int) {
 		return
 	}
 	s.items = append(s.items, simItem{dlen: n})
+}
+func (s *sim) timerFire() {
+	if s.wtimer && !s.closed {
+		s.kill()
+	}
 }
 func (s *sim) over(n int) bool { return s.maxwb > 0 && s.left+n > s.maxwb }
 func (s *sim) kill()           { s.closed = true; s.items = nil }
@@ -220,6 +253,9 @@ func (s *sim) write(sizes []int, k string) {
 		}
 		s.enqueue(b - n)
 		n = 0
+	}
+	if len(s.items) == 0 {
+		s.wtimer = false
 	}
 }
 func (s *sim) rng(off, ln int) int {
@@ -303,6 +339,9 @@ func (s *sim) flushOne(k string) bool { // false = flush stops
 		if h.off == h.dlen {
 			s.items = s.items[1:]
 		}
+	}
+	if len(s.items) == 0 {
+		s.wtimer = false
 	}
 	return true
 }
@@ -398,6 +437,9 @@ func genCall(g *lp.Gen, s *sim, inOpen bool) string {
 			p = lp.Hex(lp.Pattern(n, g.Intn(256)))
 		}
 		s.write([]int{n}, k)
+		for g.Chance(1, 8) { // interrupted attempts before the answer that counts
+			k = "eintr," + k
+		}
 		return fmt.Sprintf("write %s K=%s", p, k)
 	case r < 82:
 		m := g.PickInt(0, 1, 2, 2, 3, 3, 4, 6)
@@ -430,6 +472,9 @@ func genCall(g *lp.Gen, s *sim, inOpen bool) string {
 			k = "eagain"
 		}
 		s.write(sizes, k)
+		for g.Chance(1, 8) {
+			k = "eintr," + k
+		}
 		return strings.TrimSpace(fmt.Sprintf("writev %d %s", m, strings.Join(ps, " "))) + " K=" + k
 	default:
 		off := g.PickInt(0, 0, s.fsize, s.fsize/2, g.Intn(s.fsize+1))
@@ -539,6 +584,10 @@ func gen(g *lp.Gen) {
 			dial = " dial=1"
 		}
 		g.P("C typ=%s mode=%s maxwb=%d fsize=%d%s openwrite=%s", typ, mode, s.maxwb, s.fsize, dial, open)
+		if g.Chance(1, 5) {
+			g.P("O deadline far")
+			s.wtimer = true
+		}
 		nops := 2 + g.Intn(12)
 		if g.Chance(1, 8) {
 			nops = 12 + g.Intn(14)
@@ -563,6 +612,12 @@ func gen(g *lp.Gen) {
 				if strings.Contains(bits, "o") {
 					k = genFlush(g, s)
 				}
+				if g.Chance(1, 16) {
+					// a writer parked between its refused direct write and the append, the edge arrives meanwhile
+					call := strings.ReplaceAll(genCall(g, s, false), " ", "/")
+					g.P("O event o K=%s park=%s", genFlush(g, s), call)
+					continue
+				}
 				cb := ""
 				if bits == "i" && g.Chance(1, 6) {
 					// a writer goroutine racing with the poller's re-arm
@@ -575,8 +630,26 @@ func gen(g *lp.Gen) {
 				}
 				g.P("O event %s K=%s%s", bits, k, cb)
 			case r < 96:
+				race := ""
+				if g.Chance(1, 2) {
+					t := *s
+					t.items = append([]simItem(nil), s.items...)
+					race = " race=" + strings.ReplaceAll(genCall(g, &t, false), " ", "/")
+				}
 				s.kill()
-				g.P("O close")
+				g.P("O close%s", race)
+			case r < 98:
+				switch g.Intn(8) {
+				case 0:
+					g.P("O fire")
+					s.timerFire()
+				case 1, 2:
+					g.P("O deadline 0")
+					s.wtimer = false
+				default:
+					g.P("O deadline far")
+					s.wtimer = !s.closed
+				}
 			default:
 				g.P("Q")
 			}
@@ -615,6 +688,10 @@ type caseState struct {
 	key          strings.Builder
 	fromOpen     bool // a backlog was created inside the open callback
 	dial         bool // registered through addDialer
+	hadBacklog   bool // the previous observation saw an open conn with a non-empty queue
+	parkUsed     int   // park mode: answers the call had consumed when it parked (-1 = not in park mode)
+	edgeDue      bool  // ET: the kernel owes a writability report (ADD, or a refused/short write since the last one)
+	refSeen      int64 // v.Refusals at the last look
 	lines        []string // the op lines of the case so far (for the isolated re-run)
 	zeroWrites   int64
 	spin         int32
@@ -631,7 +708,7 @@ func getEngine(mode string) *engine {
 	if e := engines[mode]; e != nil {
 		return e
 	}
-	conf := nbio.Config{NPoller: 1, Name: "hconn-" + mode}
+	conf := nbio.Config{NPoller: 1, Name: "hconn-" + mode, BodyAllocator: parkAlloc{mempool.DefaultMemPool}}
 	switch mode {
 	case "et":
 		conf.EpollMod = nbio.EPOLLET
@@ -737,6 +814,7 @@ func (cs *caseState) doCall(cl *call) string {
 	}
 	pre := cs.c.VerifWriteState(false)
 	in := cs.input(cl)
+	park := cs.parkUsed == -2 // armed by the caller: this call may park in Malloc
 	cs.v.SetScript(ans)
 	var n int64
 	var cerr error
@@ -759,7 +837,11 @@ func (cs *caseState) doCall(cl *call) string {
 	}
 	cs.v.Lock()
 	used := len(ans) - len(cs.v.Script)
-	cs.v.Script = nil
+	if park && cs.parkUsed >= 0 {
+		used = cs.parkUsed // the script now belongs to the flush of the injected event
+	} else {
+		cs.v.Script = nil
+	}
 	cs.v.Unlock()
 	fatalAns := false
 	for _, a := range ans[:used] {
@@ -788,6 +870,10 @@ func (cs *caseState) doCall(cl *call) string {
 			cs.tolerate = in
 		}
 	}
+	// --- write deadline (C16 tie): a Write/Writev that leaves nothing to be written clears it
+	if cerr == nil && cl.kind != "sendfile" && !post.Closed && len(post.Items) == 0 && post.WTimer {
+		orc("c01-stale-wtimer", "%s returned (%d, nil) with an empty queue but the write deadline timer is still set", cl.kind, n)
+	}
 	// --- C17: fits => accepted; overflow only when it does not fit, and then fatal
 	held := len(in)
 	if cl.kind == "sendfile" {
@@ -804,8 +890,12 @@ func (cs *caseState) doCall(cl *call) string {
 		// a call that would exceed the bound even after what the kernel takes directly must fail
 		// with the overflow error and close the connection
 		direct := 0
-		if len(pre.Items) == 0 && len(ans) > 0 && ans[0].Err == 0 {
-			direct = ans[0].N
+		fa := 0 // interrupted attempts are retried: the first other answer counts
+		for fa < len(ans) && ans[fa].Err == syscall.EINTR {
+			fa++
+		}
+		if len(pre.Items) == 0 && fa < len(ans) && ans[fa].Err == 0 {
+			direct = ans[fa].N
 			if direct > held {
 				direct = held
 			}
@@ -843,6 +933,10 @@ func (cs *caseState) kernelState() (reg bool, events uint32, disarmed bool) {
 				break
 			}
 		}
+	}
+	if cs.v.Refusals != cs.refSeen {
+		cs.refSeen = cs.v.Refusals
+		cs.edgeDue = true
 	}
 	return cs.v.Reg, cs.v.Events, cs.disarmIdx >= 0
 }
@@ -924,6 +1018,11 @@ func (cs *caseState) state() string {
 				cs.mode, origin, len(st.Items), backlog, reg, events&syscall.EPOLLOUT != 0, disarmed, st.IsWAdded)
 		}
 	}
+	// ET: a backlog needs a writability report that is still due (EPOLLOUT is reported again only after
+	// the kernel refused or shortened a write)
+	if cs.mode == "et" && cs.registered && reg && !st.Closed && len(st.Items) > 0 && !cs.edgeDue {
+		orc("c04-et-lost-edge", "mode=et: open conn with %d queued items but no writability report is due (no EAGAIN / short write since the last reported EPOLLOUT): the backlog waits for an edge that never comes", len(st.Items))
+	}
 	if len(st.Items) == 0 {
 		cs.fromOpen = false
 	}
@@ -938,8 +1037,25 @@ func (cs *caseState) state() string {
 		q = 3
 	}
 	fmt.Fprintf(&cs.key, "q%d%v;", q, st.Closed)
-	return fmt.Sprintf("closed=%d left=%d wl=[%s] wadded=%d reg=%d ctl=[%s] wire=%d:%d onclose=%d",
-		b(st.Closed), st.Left, strings.Join(items, ","), b(st.IsWAdded), b(reg), strings.Join(ctl, ","), len(wire), cs.wireHash, atomic.LoadInt64(&cs.closes))
+	// C16 tie: a drained, open connection must not keep a write deadline behind (checked where the
+	// queue was seen non-empty before: set by the callers through cs.hadBacklog)
+	if cs.hadBacklog && !st.Closed && len(st.Items) == 0 && st.WTimer {
+		orc("c01-stale-wtimer", "queue drained on an open conn but the write deadline timer is still set")
+	}
+	cs.hadBacklog = !st.Closed && len(st.Items) > 0
+	// contents, not only sizes: the queued bytes (buffers + file ranges read back through the dup'ed fds)
+	// and, while open, the concatenation of the ranges the calls reported as accepted
+	edgeS := "-"
+	if cs.mode == "et" && reg && !st.Closed {
+		edgeS = strconv.Itoa(b(cs.edgeDue))
+	}
+	accS := "-"
+	if !st.Closed {
+		accS = fmt.Sprintf("%d:%d", len(cs.accepted), lp.Fnv(cs.accepted))
+	}
+	return fmt.Sprintf("closed=%d left=%d wl=[%s] pend=%d:%d acc=%s wadded=%d reg=%d kout=%d dis=%d edge=%s ctl=[%s] wire=%d:%d onclose=%d wtimer=%d",
+		b(st.Closed), st.Left, strings.Join(items, ","), len(pending), lp.Fnv(pending), accS, b(st.IsWAdded), b(reg), b(reg && events&syscall.EPOLLOUT != 0), b(disarmed), edgeS,
+		strings.Join(ctl, ","), len(wire), cs.wireHash, atomic.LoadInt64(&cs.closes), b(st.WTimer))
 }
 
 // Oracle reports are buffered and printed after the result line of the op they belong to (the
@@ -1004,6 +1120,8 @@ func (cs *caseState) finish() {
 	vsys.Forget(cs.fd)
 	ex.Key(cs.key.String(), cs.nontrivial)
 }
+
+func hasKey(f []string, key string) bool { _, ok := kv(f, key); return ok }
 
 func kv(f []string, key string) (string, bool) {
 	for _, t := range f {
@@ -1108,6 +1226,8 @@ func exec(e *lp.Exec) {
 		}
 	}()
 	firstLine := true
+	var opStart time.Time
+	lastOp := ""
 	for e.In.Scan() {
 		line := e.In.Text()
 		f := strings.Fields(line)
@@ -1120,6 +1240,15 @@ func exec(e *lp.Exec) {
 			return
 		}
 		firstLine = false
+		if p := os.Getenv("HCONN_SLOWLOG"); p != "" { // diagnostics: ops that took longer than 3 s
+			if !opStart.IsZero() && time.Since(opStart) > 3*time.Second {
+				if fh, err := os.OpenFile(p, os.O_APPEND|os.O_CREATE|os.O_WRONLY, 0644); err == nil {
+					fmt.Fprintf(fh, "%.1fs %s\n", time.Since(opStart).Seconds(), lastOp)
+					fh.Close()
+				}
+			}
+			opStart, lastOp = time.Now(), line
+		}
 		e.P("> %s", line)
 		if cur != nil && f[0] != "C" {
 			cur.lines = append(cur.lines, line)
@@ -1140,7 +1269,7 @@ func exec(e *lp.Exec) {
 				res("bad-op")
 				continue
 			}
-			cs := &caseState{typ: typ, mode: mode, maxwb: maxwb, fsize: fsize, disarmIdx: -1, wireHash: 14695981039346656037, lines: []string{line}}
+			cs := &caseState{typ: typ, mode: mode, maxwb: maxwb, fsize: fsize, disarmIdx: -1, parkUsed: -1, wireHash: 14695981039346656037, lines: []string{line}}
 			bad := false
 			if ow != "-" && ow != "" {
 				for _, it := range strings.Split(ow, ";") {
@@ -1190,7 +1319,9 @@ func exec(e *lp.Exec) {
 				if cs.mode == "oneshot" {
 					cs.disarmIdx = len(cs.v.Ctl)
 				}
+				cs.refSeen = cs.v.Refusals
 				cs.v.Unlock()
+				cs.edgeDue = false // the connect event is the edge that ADD owed
 				if !cs.inject(en.epfd, []syscall.EpollEvent{{Fd: int32(cs.fd), Events: syscall.EPOLLOUT}}) {
 					delete(engines, cs.mode)
 					cs.hang("event loop did not come back from the connect event")
@@ -1203,6 +1334,12 @@ func exec(e *lp.Exec) {
 				continue
 			}
 			cs.registered = true
+			if !cs.dial {
+				cs.edgeDue = true // EPOLL_CTL_ADD reports the current readiness
+				cs.v.Lock()
+				cs.refSeen = cs.v.Refusals
+				cs.v.Unlock()
+			}
 			if len(cs.openCalls) > 0 {
 				e.Count("cases", "open-callback-writes")
 			}
@@ -1214,9 +1351,177 @@ func exec(e *lp.Exec) {
 		case f[0] == "Q":
 			res("Q %s", cur.state())
 		case f[0] == "O" && len(f) >= 2 && f[1] == "close":
-			cur.c.Close()
-			fmt.Fprintf(&cur.key, "close,")
+			cs := cur
+			var race *call
+			if rs, ok := kv(f[2:], "race"); ok {
+				var err error
+				race, err = parseCall(strings.Split(rs, "/"))
+				if err != nil || (race.kind == "sendfile" && race.off > cs.fsize) {
+					res("bad-op")
+					cs.dead = true
+					continue
+				}
+			} else if len(f) > 2 {
+				res("bad-op")
+				cs.dead = true
+				continue
+			}
+			rc := "-"
+			if race != nil {
+				fired := false
+				vsys.CloseHook = func(fd int) {
+					if fd != cs.fd || fired {
+						return
+					}
+					fired = true
+					// the flag is set, the queue is released, the descriptor is still open
+					cs.v.Lock()
+					w0, n0 := cs.v.Writes, len(cs.v.Wire)
+					cs.v.Unlock()
+					rc = cs.doCall(race)
+					cs.v.Lock()
+					w1, n1 := cs.v.Writes, len(cs.v.Wire)
+					cs.v.Unlock()
+					if !strings.HasSuffix(rc, ":closed") || w1 != w0 || n1 != n0 {
+						orc("c01-after-flip", "%s issued between the close flag and the close of the descriptor returned %s, write-like syscalls %d -> %d, wire %d -> %d bytes (expected the closed indication and no access to the descriptor)",
+							race.kind, rc, w0, w1, n0, n1)
+					}
+				}
+				cs.c.Close()
+				vsys.CloseHook = nil
+				if !fired { // already closed before: the call simply follows
+					rc = cs.doCall(race)
+				}
+				e.Count("events", "close-race")
+			} else {
+				cs.c.Close()
+			}
+			fmt.Fprintf(&cs.key, "close,")
+			res("R rc=%s %s", rc, cs.state())
+		case f[0] == "O" && len(f) == 3 && f[1] == "deadline" && (f[2] == "far" || f[2] == "0"):
+			if f[2] == "far" {
+				_ = cur.c.SetWriteDeadline(time.Now().Add(time.Hour))
+			} else {
+				_ = cur.c.SetWriteDeadline(time.Time{})
+			}
+			cur.hadBacklog = false // an explicit (re)arming on an idle conn is legitimate
+			fmt.Fprintf(&cur.key, "dl%s,", f[2])
+			e.Count("deadline", f[2])
 			res("R %s", cur.state())
+		case f[0] == "O" && len(f) == 2 && f[1] == "fire":
+			if st := cur.c.VerifWriteState(false); !st.Closed && st.WTimer {
+				_ = cur.c.SetWriteDeadline(time.Now().Add(time.Millisecond))
+				for i := 0; i < 600000 && !cur.c.VerifWriteState(false).Closed; i++ {
+					time.Sleep(100 * time.Microsecond)
+				}
+				e.Count("deadline", "fired")
+			} else {
+				e.Count("deadline", "fire-without-timer")
+			}
+			fmt.Fprintf(&cur.key, "fire,")
+			res("R %s", cur.state())
+		case f[0] == "O" && len(f) >= 3 && f[1] == "event" && hasKey(f[3:], "park"):
+			cs := cur
+			kstr, _ := kv(f[3:], "K")
+			var ks []string
+			if kstr != "-" && kstr != "" {
+				ks = strings.Split(kstr, ",")
+			}
+			ans, err := parseAns(ks)
+			ps, _ := kv(f[3:], "park")
+			var pc *call
+			if err == nil {
+				pc, err = parseCall(strings.Split(ps, "/"))
+			}
+			if err != nil || f[2] != "o" || (pc.kind == "sendfile" && pc.off > cs.fsize) {
+				res("bad-op")
+				cs.dead = true
+				continue
+			}
+			// the writer goroutine
+			parked := make(chan struct{})
+			resume := make(chan struct{})
+			state := int32(1)
+			parkHook = func() {
+				if atomic.CompareAndSwapInt32(&state, 1, 2) {
+					cs.v.Lock()
+					cs.parkUsed = 0 // (bookkeeping of the call's own answers ends here)
+					cs.v.Unlock()
+					close(parked)
+					<-resume
+				}
+			}
+			if cs.mode != "et" {
+				// LT / ONESHOT arm EPOLLOUT only after the append (modWrite): no event can arrive in that
+				// window, the call simply precedes the event
+				parkHook = nil
+			}
+			cs.parkUsed = -2
+			callDone := make(chan string, 1)
+			nAns := len(pc.ks)
+			go func() { callDone <- cs.doCall(pc) }()
+			isParked := false
+			rc := "-"
+			select {
+			case <-parked:
+				isParked = true
+				cs.v.Lock()
+				cs.parkUsed = nAns - len(cs.v.Script)
+				cs.v.Unlock()
+			case rc = <-callDone:
+				atomic.StoreInt32(&state, 3)
+			}
+			parkHook = func() {}
+			// the event, masked by what the kernel could deliver now (the writer's direct write has happened)
+			reg, events, disarmed := cs.kernelState()
+			closedNow := false
+			if !isParked {
+				closedNow = cs.c.VerifWriteState(false).Closed
+			}
+			deliv := "-"
+			if reg && !closedNow && !disarmed && events&syscall.EPOLLOUT != 0 && (cs.mode != "et" || cs.edgeDue) {
+				deliv = "o"
+				if cs.mode == "et" {
+					cs.edgeDue = false
+				}
+				cs.v.Lock()
+				if cs.mode == "oneshot" {
+					cs.disarmIdx = len(cs.v.Ctl)
+				}
+				cs.v.Script = ans
+				cs.v.Unlock()
+				done := vsys.InjectAsync(engines[cs.mode].epfd, []syscall.EpollEvent{{Fd: int32(cs.fd), Events: syscall.EPOLLOUT}})
+				if isParked {
+					select {
+					case <-done: // flush did not wait for the writer's critical section
+					case <-time.After(50 * time.Millisecond):
+					}
+					close(resume)
+					rc = <-callDone
+				}
+				select {
+				case <-done:
+				case <-time.After(hangTimeout):
+					cs.hang("event loop did not come back from an event injected while a writer was parked")
+					parkHook = nil
+					cs.parkUsed = -1
+					continue
+				}
+				cs.v.Lock()
+				cs.v.Script = nil
+				cs.v.Unlock()
+			} else if isParked {
+				close(resume)
+				rc = <-callDone
+			}
+			parkHook = nil
+			cs.parkUsed = -1
+			e.Count("events", "park")
+			if isParked {
+				e.Count("events", "park-writer-parked")
+			}
+			fmt.Fprintf(&cs.key, "park%s,", deliv)
+			res("R deliv=%s cb=- rc=%s %s", deliv, rc, cs.state())
 		case f[0] == "O" && len(f) >= 3 && f[1] == "event":
 			cs := cur
 			bits := f[2]
@@ -1250,7 +1555,7 @@ func exec(e *lp.Exec) {
 			var evs uint32
 			deliv := ""
 			if reg && !st.Closed && !disarmed {
-				if strings.Contains(bits, "o") && events&syscall.EPOLLOUT != 0 {
+				if strings.Contains(bits, "o") && events&syscall.EPOLLOUT != 0 && (cs.mode != "et" || cs.edgeDue) {
 					evs |= syscall.EPOLLOUT
 					deliv += "o"
 				}
@@ -1267,13 +1572,15 @@ func exec(e *lp.Exec) {
 			raceRes := "-"
 			if evs != 0 {
 				before := cs.backlog()
+				if evs&syscall.EPOLLOUT != 0 && cs.mode == "et" {
+					cs.edgeDue = false // the report is consumed
+				}
 				cs.v.Lock()
 				if cs.mode == "oneshot" {
 					cs.disarmIdx = len(cs.v.Ctl)
 				}
 				cs.v.Script = ans
 				wireBefore := len(cs.v.Wire)
-				writesBefore := cs.v.Writes
 				if cb != nil && evs&syscall.EPOLLIN != 0 {
 					cs.v.Rq = append(cs.v.Rq, 0x55)
 					cs.cbCall = cb
@@ -1323,7 +1630,6 @@ func exec(e *lp.Exec) {
 				}
 				cs.v.Lock()
 				left := len(cs.v.Script)
-				calls := cs.v.Writes - writesBefore
 				cs.v.Script = nil
 				cs.v.Unlock()
 				cbRan := cb != nil && cs.cbCall == nil
@@ -1343,17 +1649,6 @@ func exec(e *lp.Exec) {
 					cs.v.Unlock()
 					if wireAfter <= wireBefore {
 						orc("c04-progress", "EPOLLOUT with kernel room (%d bytes) and a backlog of %d bytes: nothing was transmitted", ans[first].N, before)
-					}
-				}
-				// ET reports writability again only after the kernel refused a write: flush must not
-				// give up on a backlog before it has seen EAGAIN (no data callback ran, so the script
-				// bookkeeping is flush's alone)
-				if cs.mode == "et" && evs&syscall.EPOLLOUT != 0 && !cbRan && before > 0 {
-					post := cs.c.VerifWriteState(false)
-					used := len(ans) - left
-					refused := calls > int64(used) || (used > 0 && ans[used-1].Err == syscall.EAGAIN)
-					if !post.Closed && len(post.Items) > 0 && !refused {
-						orc("c04-et-lost-edge", "mode=et: flush returned with %d items queued after %d write calls none of which was refused (EAGAIN): no further EPOLLOUT edge is due", len(post.Items), calls)
 					}
 				}
 				e.Count("events", deliv)
